@@ -98,6 +98,14 @@ CHECKS = {
          "directories. Failing histories are shrunk by greedy removal. One known finding: the is_eval flag set on shared objects."),
    note=TB + "Process-global state, object identity and on-disk caches are runtime facts that no Gallina model exhibits: this property is decided by execution against the pure models (category other, not proof).",
    design='4/C12', category='other'),
+ 'C11': dict(
+   technique='translation of the lifted IR of the working tree into Gallina terms on every run (by executing the lifter on a catalogue of 16k instruction forms) + vm_compute reflection of the clause checks of Wf.v over the whole dump, modulo a committed list of known (mnemonic, operand-size, clause) classes',
+   text=("Theorem (props/C11.v, closed): every form of the regenerated dump — one representative per (mnemonic, prefixes, operand size, address size, operand shape) signature of the decoder control space whose "
+         "mnemonic has lifted semantics or uses the MMX fallback — satisfies each clause of the property (lifts without error; assignments to registers/memory of value expressions; determinate widths; equal "
+         "operand widths for + - * & | ^ ==; slices inside; concatenations tile; source/destination widths incl. the 0/1 exception for flags; no overlapping destinations) unless the (mnemonic, o16, clause) class "
+         "is in LiftKnown.v (244 classes = the recorded findings). A new clause for a listed mnemonic or any clause for an unlisted one breaks the obligation. Exploration: 60k further strings judged with the extracted checker."),
+   note=TB + "The dump observes get_instr_expr by execution (translator = harness/dump_lift.py, fail-closed). Wf.v is a hand-written statement of the clauses; is01 is a syntactic sufficient condition. Parametricity inside a signature is sampled.",
+   design='4/C11'),
 }
 PENDING = {p: 'check under construction in this round (see DESIGN.md section 6 staging); not claimed yet' for p in ALL}
 def main():
